@@ -34,11 +34,11 @@ PROPS = {
                 "every 4th run is the SCION half: the real SCIONClient against real runSCIONServer listeners through a relay router, with 1..3 crafted SCION packets per attacked exchange (the genuine response with another source "
                 "ISD-AS or host, another destination ISD-AS or host, source and destination swapped, NTP fields changed, truncated, replays, the reflected request, forged responses from another AS, random bytes), so that the single retry is regularly used up before the packet of interest arrives; "
                 "non-trivial = at least one crafted datagram and two measurements; distinct = distinct event-log hash",
-        "required_probes": ["clean-exchange", "succeeded-under-attack", "measurement-failed", "scion-succeeded-under-attack"],
+        "required_probes": ["clean-exchange", "succeeded-under-attack", "measurement-failed", "scion-succeeded-under-attack", "scion-nts"],
         "components": {"real": ["core/client IPClient and SCIONClient receive loops", "net/ntp ValidateResponseMetadata/Timestamps", "net/nts DecodePacket/ProcessResponse", "core/server runIPServer, runSCIONServer"],
                        "stub": dict(STUBS_COMMON, **{"kernel UDP": "simnet", "attacker": "scripted injector"})},
         "assumptions": ["'comes from the queried server' is judged on the source address (a reply may come from any port of that address)",
-                        "NTS is exercised over IP only; the SCION half runs without NTS and without DRKey authentication (C13 covers the latter)"],
+                        "the SCION half runs with NTS in 1/3 of its runs (key exchange over TLS on simulated TCP, not QUIC) and without DRKey authentication (C13 covers the latter)"],
     },
     "C06": {
         "level": "exploration",
@@ -119,13 +119,14 @@ PROPS = {
         "runs": {"quick": 160, "thorough": 60000},
         "rule": "one run = one NTS session between the real IPClient and the real listeners (real NTS-KE over simulated TLS) in which 128 tampered copies of packets captured in flight are delivered: "
                 "the first 32 runs of a batch enumerate every single-bit flip of the 252-byte request (delivered to the listeners) and of the 252-byte response (delivered to the client's socket ahead of the genuine one); "
-                "later runs sample bit flips, every 16-bit length word set to 0,1,3,4,-4,+4,0xffff,15,16,17, the client's own request reflected as a response, a genuine response to an earlier request replayed, and unmodified replays; "
+                "runs 32..63 repeat that enumeration with the NTP exchange carried over SCION (real SCIONClient with NTS, real runSCIONServer listeners with the key provider, relay router; tampered copies re-wrapped with consistent SCION/UDP lengths and checksum); "
+                "later runs (every 4th of them over SCION) sample bit flips, responses correctly re-sealed under the session key but with a longer / shorter / one-bit-different unique identifier, every 16-bit length word set to 0,1,3,4,-4,+4,0xffff,15,16,17, the client's own request reflected as a response, a genuine response to an earlier request replayed, and unmodified replays; "
                 "non-trivial = at least two tampered packets judged; distinct = distinct event-log hash",
-        "exhaustive_part": "single-bit flips of one request and one response at pool level 8: 4032 cases, enumerated completely when the batch has at least 32 runs (quick tier: 160 runs)",
-        "required_probes": ["genuine-accepted", "request-tamper-rejected", "response-tamper-rejected", "genuine-accepted-after-tampered", "unauthenticated-position", "resealed-other-identifier"],
-        "components": {"real": ["net/nts DecodePacket, ProcessRequest, ProcessResponse, authenticate", "net/ntske cookies (Decode, Decrypt), Provider", "core/server runIPServer", "core/client IPClient", "NTS-KE over real TLS"],
-                       "stub": dict(STUBS_COMMON, **{"kernel UDP/TCP": "simnet", "attacker": "scripted re-delivery of captured packets"})},
-        "assumptions": ["a change is 'accepted' by a listener iff it answers, by the client iff the tampered datagram is the one it had read last when it reported an offset",
+        "exhaustive_part": "single-bit flips of one request and one response at pool level 8: 4032 cases, enumerated completely over IP when the batch has at least 32 runs and again over SCION when it has at least 64 (quick tier: 160 runs)",
+        "required_probes": ["genuine-accepted", "request-tamper-rejected", "response-tamper-rejected", "genuine-accepted-after-tampered", "unauthenticated-position", "resealed-other-identifier", "transport:scion"],
+        "components": {"real": ["net/nts DecodePacket, ProcessRequest, ProcessResponse, authenticate", "net/ntske cookies (Decode, Decrypt), Provider", "core/server runIPServer, runSCIONServer (NTS branches)", "core/client IPClient, SCIONClient (NTS branches)", "NTS-KE over real TLS"],
+                       "stub": dict(STUBS_COMMON, **{"kernel UDP/TCP": "simnet", "attacker": "scripted re-delivery of captured packets", "SCION border routers": "one relay router", "NTS-KE transport of the SCION client": "TLS on simulated TCP (production wiring: QUIC over SCION, not simulated)"})},
+        "assumptions": ["a change is 'accepted' by a listener iff it answers at all (with or without NTS fields), by the client iff the tampered datagram is the one it had read last when it reported an offset",
                         "the two bytes of the authenticator field's own extension length are not authenticated and not interpreted: the statement is silent there (either outcome)",
                         "different-session keys are exercised by C20/C11 (cookie keys), not here"],
     },
@@ -134,13 +135,14 @@ PROPS = {
         "budget": {"quick": 80, "thorough": 900},
         "runs": {"quick": 3000, "thorough": 300000},
         "rule": "one run = 6..45 measurement attempts of the real IPClient with NTS (real Fetcher) against the real NTS-KE server (real TLS 1.3 on simulated TCP) and 2 real NTP listeners with the real key Provider; "
+                "every 4th run carries the NTP exchange over SCION instead (real SCIONClient with NTS, real runSCIONServer listeners, relay router); replays of stale genuine responses of the session ahead of the genuine one in 1/2 of the runs; "
                 "loss bursts of length 1..10 on requests or on responses in 3/4 of the runs (bursts of 7 and more only in 1/5 of those), idle gaps of 1 h..5 d between attempts in 1/3 of the runs "
                 "(server key renewal and retirement, cookies expiring, re-keying); every request and reply on the wire is parsed by the harness's own RFC 8915 field walker and authenticated independently with miscreant; "
                 "non-trivial = at least two successful exchanges; distinct = distinct event-log hash",
-        "required_probes": ["exchange-ok", "reply-verified", "re-keyed", "pool-restored", "request-at-level-8", "request-at-level-5"],
+        "required_probes": ["exchange-ok", "exchange-ok:ip", "exchange-ok:scion", "reply-verified", "re-keyed", "pool-restored", "request-at-level-8", "request-at-level-5"],
         "components": {"real": ["net/ntske Fetcher (FetchData, StoreCookie), Provider, cookies", "net/nts NewRequestPacket, EncodePacket, DecodePacket, ProcessRequest/Response, NewResponsePacket",
-                                "core/server runIPServer (authenticated branch), handleKeyExchangeTLS", "core/client IPClient", "crypto/tls"],
-                       "stub": dict(STUBS_COMMON, **{"kernel UDP/TCP": "simnet"})},
+                                "core/server runIPServer, runSCIONServer (authenticated branches), handleKeyExchangeTLS", "core/client IPClient, SCIONClient", "crypto/tls"],
+                       "stub": dict(STUBS_COMMON, **{"kernel UDP/TCP": "simnet", "SCION border routers": "one relay router", "NTS-KE transport of the SCION client": "TLS on simulated TCP (production wiring: QUIC over SCION, not simulated)"})},
         "assumptions": ["pool level is read through the export shim before each attempt and cross-checked with the placeholder count on the wire",
                         "'as many as fit' is judged with the request's cookie length: fewer cookies than requested are accepted only if one more would exceed 1024 bytes"],
     },
@@ -333,7 +335,7 @@ PROPS["C10"].update(
     technique="deterministic simulation with enumerated in-flight corruption faults")
 PROPS["C11"].update(
     level_text="seeded exploration of exchange histories with loss bursts, idle days (key rotation/retirement) and re-keying between the real NTS client, key-exchange server and NTP listeners; a wire monitor decides cookie single use, cookie/placeholder typing and count, request and reply size, reply authenticity, freshness and validity of issued cookies; pool accounting after every attempt. Evidence, not proof.",
-    level_note="IP transport; the monitor's field walker and AEAD check are independent of the repository's decoder; server restart is not injected in this tier",
+    level_note="IP and SCION transport (pool level 1, where known finding F13 strikes, over IP only); the monitor's field walker and AEAD check are independent of the repository's decoder; server restart is not injected in this tier",
     technique="deterministic simulation with fault injection: scripted loss bursts and virtual-time key rotation, wire monitor + pool model")
 PROPS["C12"].update(
     level_text="seeded exploration of call histories and statement-level interleavings of the real Provider under a virtual clock over weeks of virtual time; per-call invariants from the statement plus a porcupine linearizability check against a permissive model. Evidence, not proof.",
